@@ -1384,7 +1384,9 @@ def oracle_case(case, obs):
         elif op[0] == "ntr":
             want = topics.get(op[1])
             if o != ["nt", want]:
-                return fail("c09-topic-at-documented-key",
+                # (a topic where the property puts none is reported under its own fingerprint: the
+                # search prefers a failure of a clause about a documented key)
+                return fail("c09-topic-at-documented-key" if want is not None else "c09-topic-outside-documented-keys",
                             "an independent subscriber at %s sees %s, the property (documented key, topic type, "
                             "writeDefault, latest write) requires %s" % (op[1], json.dumps(o[1]), json.dumps(want)))
     return None
@@ -2168,7 +2170,12 @@ def run(ctx):
     def search():
         found = []
         # 1. the disagreeing cases themselves
+        first, later = [], []
         for i in hbad[:40]:
+            v0 = oracle_case(pairs[i][0], pairs[i][1])
+            if v0 is not None:
+                (later if v0["fingerprint"] == "c09-topic-outside-documented-keys" else first).append(i)
+        for i in first + later:
             v = violation_of_case(mt, pairs[i][0])
             if v:
                 return [v]
